@@ -108,6 +108,12 @@ func ematchInstances(lines []string, hyps []*quantHyp, goalText string) []string
 		name := strings.TrimSpace(as[0])
 		body := strings.TrimSpace(as[3])
 		d := &heapDef{body: body}
+		if op, sa := splitTop(body); op == "ite" && len(sa) == 3 && isSymbol(strings.TrimSpace(sa[1])) {
+			// (ite c E (store E base inner)): a conditional update
+			if op2, sb := splitTop(strings.TrimSpace(sa[2])); op2 == "store" && len(sb) == 3 && strings.TrimSpace(sb[0]) == strings.TrimSpace(sa[1]) {
+				body = strings.TrimSpace(sa[2])
+			}
+		}
 		if op, sa := splitTop(body); op == "store" && len(sa) == 3 && isSymbol(strings.TrimSpace(sa[0])) {
 			d.prevs = []string{strings.TrimSpace(sa[0])}
 			d.inner = strings.TrimSpace(sa[2])
@@ -168,6 +174,46 @@ func ematchInstances(lines []string, hyps []*quantHyp, goalText string) []string
 	if len(pats) == 0 {
 		return nil
 	}
+	// canonical text of an array term: named SSA values / spec abbreviations (0-ary define-funs)
+	// are replaced by their definitions, so that the same object reached through a program variable
+	// and through a specification path compares equal
+	canonMemo := map[string]string{}
+	var canon func(t string, depth int) string
+	canon = func(t string, depth int) string {
+		if depth == 0 {
+			if c, ok := canonMemo[t]; ok {
+				return c
+			}
+		}
+		out := t
+		if depth < 6 {
+			var b strings.Builder
+			i := 0
+			for i < len(t) {
+				if t[i] == '|' {
+					j := i + 1
+					for j < len(t) && t[j] != '|' {
+						j++
+					}
+					sym := t[i : j+1]
+					if body, ok := scalarDefs[sym]; ok && len(body) < 2000 {
+						b.WriteString(canon(body, depth+1))
+					} else {
+						b.WriteString(sym)
+					}
+					i = j + 1
+					continue
+				}
+				b.WriteByte(t[i])
+				i++
+			}
+			out = b.String()
+		}
+		if depth == 0 && len(out) < 20000 {
+			canonMemo[t] = out
+		}
+		return out
+	}
 	// index: array symbol / version -> patterns
 	bySym := map[string][]int{}
 	byVer := map[string][]int{}
@@ -177,7 +223,7 @@ func ematchInstances(lines []string, hyps []*quantHyp, goalText string) []string
 		} else if v, _ := versionOf(p.arr); v != "" {
 			// a hypothesis about one object of a heap version: matched by reads of the same object
 			// (textually the same base term) of that version
-			byVer[p.arr] = append(byVer[p.arr], i)
+			byVer[canon(p.arr, 0)] = append(byVer[canon(p.arr, 0)], i)
 		}
 	}
 	var out []string
@@ -263,6 +309,15 @@ func ematchInstances(lines []string, hyps []*quantHyp, goalText string) []string
 			for _, pi := range bySym[r.arr] {
 				fire(pi, r.idx, it.depth)
 			}
+			// a heap version read at an object (outer select): the same object of the versions it is
+			// built from
+			if d := defs[r.arr]; d != nil {
+				for _, pv := range d.prevs {
+					if isSymbol(pv) && (defs[pv] != nil || len(bySym[pv]) > 0) {
+						push(arrRead{pv, r.idx}, it.depth)
+					}
+				}
+			}
 			// a named inner array may itself be defined in terms of heap reads
 			if d := defs[r.arr]; d != nil {
 				for _, sub := range allSelects(d.body) {
@@ -288,7 +343,7 @@ func ematchInstances(lines []string, hyps []*quantHyp, goalText string) []string
 			}
 			continue
 		}
-		for _, pi := range byVer[r.arr] {
+		for _, pi := range byVer[canon(r.arr, 0)] {
 			fire(pi, r.idx, it.depth)
 		}
 		if d := defs[ver]; d != nil {
@@ -304,6 +359,15 @@ func ematchInstances(lines []string, hyps []*quantHyp, goalText string) []string
 					for _, sub := range allSelects(d.inner) {
 						if v, _ := versionOf(sub.arr); v != "" {
 							push(arrRead{sub.arr, r.idx}, it.depth)
+						}
+						// values stored into the array are reads in their own right
+						push(sub, it.depth)
+					}
+					// .. also when they are named SSA values defined by a read
+					for _, sym := range symbolsIn(d.inner) {
+						if body, ok := scalarDefs[sym]; ok && !visitedDef[sym] {
+							visitedDef[sym] = true
+							readsOf(body, it.depth, "")
 						}
 					}
 				}
